@@ -312,9 +312,12 @@ def plan(ctx):
         for sh in A.shard_prefixes(A.DELIM, 2 if quick else 3, 1):
             tasks.append(("checks.C09", "task_build_encoded", (2 if quick else 3, sh, quick), b, "be"))
         # text content (not only structure): every entry point of vlib.routes, incl. the constructor under the context matrix
-        rs = ("F1", "X2") if quick else ("F1", "X2", "K3")
         for gi in range(24):
-            tasks.append(("checks.C09", "task_routes", ("NAMES", gi, 24, rs, quick), b, "r"))
+            tasks.append(("checks.C09", "task_routes", ("NAMES", gi, 24, ("F1", "X2"), quick), b, "r"))
+        if not quick:
+            # three-letter core words through the constructor templates (where the cache is pre-filled)
+            for gi in range(24):
+                tasks.append(("checks.C09", "task_routes", ("CTOR_NAMES", gi, 24, ("K3",), quick), b, "rk"))
         for gi in range(8):
             tasks.append(("checks.C09", "task_routes", ("NAMES_SUB", gi, 8, ("F1",), quick), b, "rs"))
             tasks.append(("checks.C09", "task_routes", ("NAMES_CTX1", gi, 8, ("F1", "K2"), quick), b, "x1"))
@@ -324,7 +327,7 @@ def plan(ctx):
             tasks.append(("checks.C09", "task_routes", ("NAMES_BCTX", gi, 8, ("F1",), quick), b, "xb"))
     from vlib import sweep as _sw
     ctx.notes["context_routes"] = _sw.ctx_note()
-    ctx.notes["bounds"] = {"route_word_spaces": "F1, X2 (thorough: + K3) through every route of vlib.routes; quick compares the object with its pickle twin only, thorough with all twins",
+    ctx.notes["bounds"] = {"route_word_spaces": "F1, X2 through every route of vlib.routes (thorough: + K3 through the constructor templates); quick compares the object with its pickle twin only, thorough with all twins",
                            "delimiter_alphabet": A.DELIM, "max_word_length": "3 (4 for prefix '//' with auto-encoding)" if quick else k, "prefixes": PREFIXES, "bfs_depth": 2 if quick else 3}
     return tasks
 
